@@ -134,13 +134,60 @@ func RunParent(ch *Check, tier string, seed int64) int {
 					rerr = json.Unmarshal(b, &r)
 				}
 				if rerr != nil {
+					// the worker died without a result (a fatal runtime error: stack overflow,
+					// out of memory, os.Exit in the code under test).  Run the same part of the
+					// shard again with every case written down before it runs, to name the case.
+					tracePath := filepath.Join(runDir, fmt.Sprintf("trace-%d-%d.json", k, attempt))
+					tcmd := exec.Command(os.Args[0], "-id", ch.ID, "-tier", tier, "-seed", fmt.Sprint(seed),
+						"-worker", fmt.Sprintf("%d/%d", k, n), "-resume", fmt.Sprint(resume), "-out", out+".trace")
+					var tbuf cappedBuf
+					tcmd.Stderr, tcmd.Stdout = &tbuf, &tbuf
+					tcmd.Env = append(os.Environ(), "GOMAXPROCS=2", "VERIF_TRACE_CASES="+tracePath)
+					terr := tcmd.Run()
+					var tr struct {
+						Idx  int64           `json:"idx"`
+						Case json.RawMessage `json:"case"`
+					}
+					tb, _ := os.ReadFile(tracePath)
+					named := terr != nil && json.Unmarshal(tb, &tr) == nil && len(tr.Case) > 0 && string(tr.Case) != "null"
 					mu.Lock()
 					crashed++
-					total.Exhaustive = false
-					total.Failures = append(total.Failures, Failure{Kind: "crash", Case: J(map[string]any{"shard": k, "attempt": attempt}),
-						Observed: fmt.Sprintf("worker died without a result: %v", err)})
+					if named {
+						total.Failures = append(total.Failures, Failure{Kind: "fatal", Bucket: "process-death", Case: tr.Case,
+							Observed: fmt.Sprintf("the worker process died while running this case (%v): %s", err, clip(firstFatalLine(string(errBuf.b)), 300))})
+					} else {
+						total.Exhaustive = false
+						total.Failures = append(total.Failures, Failure{Kind: "crash", Case: J(map[string]any{"shard": k, "attempt": attempt}),
+							Observed: fmt.Sprintf("worker died without a result: %v", err)})
+					}
 					total.FailureCount[""]++
 					mu.Unlock()
+					if named {
+						// the cases this worker completed before it died were lost with it: run them
+						// once more (up to the case before the fatal one) and keep their results
+						if tr.Idx > resume {
+							pout := out + ".prefix"
+							pcmd := exec.Command(os.Args[0], "-id", ch.ID, "-tier", tier, "-seed", fmt.Sprint(seed),
+								"-worker", fmt.Sprintf("%d/%d", k, n), "-resume", fmt.Sprint(resume), "-upto", fmt.Sprint(tr.Idx-1), "-out", pout)
+							var pbuf cappedBuf
+							pcmd.Stderr, pcmd.Stdout = &pbuf, &pbuf
+							pcmd.Env = append(os.Environ(), "GOMAXPROCS=2")
+							_ = pcmd.Run()
+							var pr Result
+							if pb, perr := os.ReadFile(pout); perr == nil && json.Unmarshal(pb, &pr) == nil {
+								mu.Lock()
+								merge(total, &pr)
+								mu.Unlock()
+							} else {
+								mu.Lock()
+								total.Exhaustive = false
+								total.Notes = append(total.Notes, fmt.Sprintf("shard %d: the cases before the fatal one could not be re-run", k))
+								mu.Unlock()
+							}
+						}
+						resume = tr.Idx + 1
+						continue
+					}
 					return
 				}
 				mu.Lock()
@@ -201,8 +248,8 @@ func RunParent(ch *Check, tier string, seed int64) int {
 		ok := true
 		if f.Kind != "crash" && ch.Replay != nil {
 			reps := 5
-			if f.Kind == "hang" {
-				reps = 2 // each confirmation of a hang costs its full 30 s timeout
+			if f.Kind == "hang" || f.Kind == "fatal" {
+				reps = 2 // each confirmation of a hang costs its full 30 s timeout, of a process death its stack or heap growth
 			}
 			for i := 0; i < reps && ok; i++ {
 				cmd := exec.Command(os.Args[0], "-id", ch.ID, "-tier", tier, "-replay", p)
@@ -374,6 +421,16 @@ func histConfirm(ch *Check, f *Failure, dir string) bool {
 		}
 	}
 	return true
+}
+
+// firstFatalLine picks the runtime's own verdict out of a dying worker's stderr.
+func firstFatalLine(s string) string {
+	for _, ln := range strings.Split(s, "\n") {
+		if strings.HasPrefix(ln, "fatal error:") || strings.HasPrefix(ln, "runtime:") || strings.HasPrefix(ln, "panic:") {
+			return ln
+		}
+	}
+	return clip(s, 200)
 }
 
 // cappedBuf keeps the first 3000 bytes written to it.
